@@ -16,7 +16,7 @@
                    see l followed by the ghost; Size is length l
      ls_abs s d    representation invariant: counter = length l, and the heap's
                    next-chain from address 0 spells (ghost, then l bottom-up)
-     pushed ops    number of Push in ops;  ss_pops: Pops executed while Size <> 0
+     pushed ops    number of Push in ops;  ss_pops / ls_pops: Pops executed while Size <> 0
      sout_wf r     r is not a failure of the model, and if it is a Size it is >= 0 *)
 
 From Gogu Require Import Base C05_DList C05_Model C05_Proofs C06_Model C06_Proofs.
@@ -149,6 +149,63 @@ Theorem C06_lstack_outputs_wf : forall t ops r,
 Proof. exact ls_out_wf. Qed.
 Print Assumptions C06_lstack_outputs_wf.
 
+(* Size = 1 (the mandatory first element) + pushes - successful pops, after
+   every history; a Pop is "successful" iff executed while Size() <> 0 *)
+Theorem C06_lstack_size_counts : forall t ops,
+  outs ls_step (ls_new t) (ops ++ [SSize]) =
+  outs ls_step (ls_new t) ops ++ [SInt (1 + Z.of_nat (pushed ops) - Z.of_nat (ls_pops (ls_new t) ops))].
+Proof. exact ls_size_counts. Qed.
+Print Assumptions C06_lstack_size_counts.
+
+(* "never negative" for the counter field itself (the `if s.n > 0` guard of
+   LStack.Pop), after every history *)
+Theorem C06_lstack_counter_never_negative : forall t ops,
+  0 <= ls_size (state_after ls_step (ls_new t) ops).
+Proof. exact ls_counter_nonneg. Qed.
+Print Assumptions C06_lstack_counter_never_negative.
+
+(* ------------------------------------------------------------------ *)
+(* The clauses one by one, after ANY history, in terms of the LIFO     *)
+(* contents (state_after lifo_step [t] ops) only.                      *)
+(* ------------------------------------------------------------------ *)
+
+(* the defect, universally: whenever the stack holds at least two elements
+   a :: b :: rest (a on top), Pop REMOVES a and ANSWERS b *)
+Theorem C06_lstack_pop_answers_below_top_partial : forall t ops a b rest,
+  state_after lifo_step [t] ops = a :: b :: rest ->
+  outs ls_step (ls_new t) (ops ++ [Pop]) = outs ls_step (ls_new t) ops ++ [SVal b] /\
+  state_after lifo_step [t] (ops ++ [Pop]) = b :: rest.
+Proof. exact ls_pop_below. Qed.
+Print Assumptions C06_lstack_pop_answers_below_top_partial.
+
+(* Peek on a non-empty linked stack is right: the most recently pushed element
+   not yet removed *)
+Theorem C06_lstack_peek_nonempty_partial : forall t ops,
+  state_after lifo_step [t] ops <> [] ->
+  outs ls_step (ls_new t) (ops ++ [SPeek]) =
+  outs ls_step (ls_new t) ops ++ [SVal (hd 0 (state_after lifo_step [t] ops))].
+Proof. exact ls_peek_nonempty. Qed.
+Print Assumptions C06_lstack_peek_nonempty_partial.
+
+(* Search is exact for every value other than the stack's first element t
+   (the only value a ghost can carry) *)
+Theorem C06_lstack_search_exact_partial : forall t ops x, x <> t ->
+  outs ls_step (ls_new t) (ops ++ [SSearch x]) =
+  outs ls_step (ls_new t) ops ++ [SBool (existsb (Z.eqb x) (state_after lifo_step [t] ops))].
+Proof. exact ls_search_not_first. Qed.
+Print Assumptions C06_lstack_search_exact_partial.
+
+(* the ghost, universally: EVERY history that leaves the linked stack logically
+   empty leaves the node of its first element t behind — Size says 0, but Peek
+   answers t and Search t says true (the statement wants 0 and false); Pop
+   answers the zero value and changes nothing (same answers afterwards) *)
+Theorem C06_lstack_emptied_keeps_ghost_partial : forall t ops,
+  state_after lifo_step [t] ops = [] ->
+  outs ls_step (ls_new t) (ops ++ [SSize; SPeek; SSearch t; Pop; SSize; SPeek; SSearch t]) =
+  outs ls_step (ls_new t) ops ++ [SInt 0; SVal t; SBool true; SVal 0; SInt 0; SVal t; SBool true].
+Proof. exact ls_emptied_ghost. Qed.
+Print Assumptions C06_lstack_emptied_keeps_ghost_partial.
+
 (* Non-vacuity: the invariant is inhabited in all three shapes — fresh, with
    several elements, and in the ghost state after emptying and refilling *)
 Example C06_example_states :
@@ -158,4 +215,15 @@ Example C06_example_states :
   s [Pop; Push 5; Push 6; Pop] = ([5], Some 1) /\
   outs ls_step (ls_new 1) [Pop; Push 5; Push 6; Pop; Pop; SPeek] =
     [SVal 0; SNone; SNone; SVal 5; SVal 1; SVal 1].
+Proof. vm_compute. repeat split; reflexivity. Qed.
+
+(* the hypotheses of the history-level theorems are met by histories that empty
+   and refill: depth >= 2 after a refill, emptied twice, successful pops counted *)
+Example C06_example_history_hypotheses :
+  state_after lifo_step [1] [Pop; Push 5; Push 6] = [6; 5] /\
+  state_after lifo_step [1] [Pop; Push 5; Pop] = [] /\
+  ls_pops (ls_new 1) [Pop; Pop; Push 5; Pop; Pop] = 2%nat /\
+  pushed [Pop; Pop; Push 5; Pop; Pop] = 1%nat /\
+  outs ls_step (ls_new 1) [Pop; Pop; Push 5; Pop; Pop; SSize] =
+    [SVal 0; SVal 0; SNone; SVal 1; SVal 0; SInt 0].
 Proof. vm_compute. repeat split; reflexivity. Qed.
